@@ -116,6 +116,11 @@ impl<R: Read + Seek> ReadBox<&mut R> for MetaBox {
             // Get box header.
             let header = BoxHeader::read(reader)?;
             let BoxHeader { name, size: s } = header;
+            if s > size {
+                return Err(Error::InvalidData(
+                    "meta box contains a box with a larger size than it",
+                ));
+            }
 
             // Break if size zero BoxHeader, which can result in dead-loop.
             if s == 0 {
@@ -151,6 +156,11 @@ impl<R: Read + Seek> ReadBox<&mut R> for MetaBox {
                     // Get box header.
                     let header = BoxHeader::read(reader)?;
                     let BoxHeader { name, size: s } = header;
+                    if s > size {
+                        return Err(Error::InvalidData(
+                            "meta box contains a box with a larger size than it",
+                        ));
+                    }
 
                     // Break if size zero BoxHeader, which can result in dead-loop.
                     if s == 0 {
@@ -179,6 +189,11 @@ impl<R: Read + Seek> ReadBox<&mut R> for MetaBox {
                     // Get box header.
                     let header = BoxHeader::read(reader)?;
                     let BoxHeader { name, size: s } = header;
+                    if s > size {
+                        return Err(Error::InvalidData(
+                            "meta box contains a box with a larger size than it",
+                        ));
+                    }
 
                     // Break if size zero BoxHeader, which can result in dead-loop.
                     if s == 0 {
@@ -190,7 +205,10 @@ impl<R: Read + Seek> ReadBox<&mut R> for MetaBox {
                             skip_box(reader, s)?;
                         }
                         _ => {
-                            let mut box_data = vec![0; (s - HEADER_SIZE) as usize];
+                            let box_data_size = s
+                                .checked_sub(HEADER_SIZE)
+                                .ok_or(Error::InvalidData("meta child box size too small"))?;
+                            let mut box_data = vec![0; box_data_size as usize];
                             reader.read_exact(&mut box_data)?;
 
                             data.push((name, box_data));
